@@ -281,7 +281,8 @@ func pages(input OmegaInput) (output OmegaOutput) {
 	}
 
 	// otherwise if p < 16 or p + c >= 2^32 / ZP or i in N_p...+c : (u_A)_i = nil
-	if r > 4 || p < 16 || p+c >= (1<<32)/ZP {
+	// (p + c is compared without wrapping: neither operand may reach the page count)
+	if r > 4 || p < 16 || p >= (1<<32)/ZP || c >= (1<<32)/ZP-p {
 		input.VM.Registers[7] = HUH
 		return OmegaOutput{
 			ExitReason: ExitContinue,
